@@ -1,5 +1,6 @@
 import MicroHttp.Props.C13
 import MicroHttp.Props.C01
+import MicroHttp.Props.Tables
 #print axioms MicroHttp.C13.cont_iff
 #print axioms MicroHttp.C13.cont_only_at_end_of_headers
 #print axioms MicroHttp.C13.body_byte_no_cont
@@ -8,3 +9,4 @@ import MicroHttp.Props.C01
 #print axioms MicroHttp.C13.server_switches_to_out
 #print axioms MicroHttp.C01.tryRead_refines
 #print axioms MicroHttp.C01.sched_refines
+#print axioms MicroHttp.Tables.no_shared_state
